@@ -414,6 +414,15 @@ def run_case(sh, s, d, case):
                         return None
                     continue
                 tid = st.lastTransaction()
+                # an undo must be refused when a later transaction changed what the undone one wrote: for blobs that is a later
+                # revision with other bytes (the records of all revisions of a blob are alike, the bytes are in the files)
+                for name, oid in list(oid_of.items()):
+                    revs = sorted(t for (o, t) in content_at if o == oid)
+                    if utid in revs and revs[-1] != utid and content_at[(oid, revs[-1])] != content_at[(oid, utid)] \
+                            and content_at[(oid, revs[-1])] is not None and content_at[(oid, utid)] is not None:
+                        sh.violation('c13:%s:undo-of-a-blob-change-accepted-although-a-later-transaction-rewrote-the-blob' % kind,
+                                     {'name': name, 'trace': trace[-20:], 'undone': utid, 'later': revs[-1]}, case)
+                        return None
                 # model: every blob written by the undone transaction goes back to its previous revision
                 for name, oid in list(oid_of.items()):
                     revs = sorted(t for (o, t) in content_at if o == oid)
